@@ -2,3 +2,82 @@
 // SPDX-License-Identifier: Apache-2.0
 
 //! verification hook drivers: close_sender
+//!
+//! Mounted as a child of `crate::connection` (see `connection/mod.rs`). Drives the real
+//! `CloseSender` on a validated server path with a virtual clock in milliseconds.
+#![allow(dead_code, unused_imports, clippy::all)]
+
+use super::close_sender::CloseSender;
+use crate::{
+    transmission::interest::Provider as _,
+    verif_hooks::amplification::{server_path, ServerPath},
+};
+use bytes::Bytes;
+use core::time::Duration;
+use s2n_quic_core::{
+    event::testing::Publisher,
+    io::tx::{self, Message as _},
+    time::Timestamp,
+};
+
+pub struct Closer {
+    sender: CloseSender,
+    path: ServerPath,
+    publisher: Publisher,
+    packet: Bytes,
+    now_ms: u64,
+}
+
+fn ts(ms: u64) -> Timestamp {
+    // the epoch offset keeps the timestamp non-zero
+    unsafe { Timestamp::from_duration(Duration::from_millis(1000 + ms)) }
+}
+
+impl Closer {
+    /// enters the closing state at time 0 with the given close packet and closing period
+    pub fn new(packet: &[u8], timeout_ms: u64) -> Self {
+        let mut path = server_path();
+        path.on_handshake_packet();
+        let mut sender = CloseSender::default();
+        let packet = Bytes::copy_from_slice(packet);
+        sender.close(packet.clone(), Duration::from_millis(timeout_ms), ts(0));
+        Self {
+            sender,
+            path,
+            publisher: Publisher::no_snapshot(),
+            packet,
+            now_ms: 0,
+        }
+    }
+
+    /// advances the clock and delivers the timeout; true = the closing period is over
+    pub fn advance(&mut self, dt_ms: u64) -> bool {
+        self.now_ms += dt_ms;
+        self.sender.on_timeout(ts(self.now_ms)).is_ready()
+    }
+
+    pub fn datagram_received(&mut self, rtt_ms: u64) {
+        self.sender
+            .on_datagram_received(Duration::from_millis(rtt_ms), ts(self.now_ms));
+    }
+
+    /// gives the sender the opportunity to send one datagram:
+    /// None = nothing sent, Some(bytes) = the datagram payload
+    pub fn try_transmit(&mut self) -> Option<Vec<u8>> {
+        let interest = self.sender.get_transmission_interest();
+        if !interest.can_transmit(self.path.transmission_constraint()) {
+            return None;
+        }
+        let mut buffer = [0u8; 1500];
+        let len = self
+            .sender
+            .transmission(&mut self.path, ts(self.now_ms), &mut self.publisher)
+            .write_payload(tx::PayloadBuffer::new(&mut buffer), 0)
+            .ok()?;
+        Some(buffer[..len].to_vec())
+    }
+
+    pub fn close_packet(&self) -> &[u8] {
+        &self.packet
+    }
+}
